@@ -126,6 +126,20 @@ func Init(machines ...MachineProvider) *FSMPool {
 		}
 	}
 
+	// Final states that do not start another machine (cancelled and finished rounds) belong to
+	// the machine that reaches them, so that a round saved in such a state can still be loaded
+	for _, machine := range machines {
+		finStater, ok := machine.(interface{ FinStatesList() []fsm.State })
+		if !ok {
+			continue
+		}
+		for _, state := range finStater.FinStatesList() {
+			if _, exists := p.states[state]; !exists && state != fsm.StateGlobalDone {
+				p.states[state] = machine.Name()
+			}
+		}
+	}
+
 	if p.fsmInitialEvent == "" {
 		panic("machines pool entry event not set")
 	}
